@@ -178,10 +178,19 @@ def updateVolumes (c : Core) (s : Nat) (actual : List VInfo) : Core × List VInf
   let a := addAll g1.1 s actual
   (a.1, a.2.1, g0.2 ++ g1.2, a.2.2)
 
-/-- DataNode.DeltaUpdateVolumes: a deletion decrements whether or not the volume is registered,
-    and takes the remote flag from the (short) message -/
+/-- DeltaUpdateVolumes, one deletion message `v` (a short message: id + layout key): only a volume
+    registered on the message's disk is deleted, and the decrement takes the remote flag of the
+    REGISTERED volume; a message for a volume that is not registered changes nothing
+    (repaired in /repo by f55c35ee and 4838d419; before, every message decremented and the remote
+    flag came from the message) -/
+def delReg (c : Core) (s : Nat) (v : VInfo) : Core :=
+  match c.vols s v.key.disk v.id with
+  | some old => delVol c s v.key.disk v.id old.remote
+  | none => c
+
+/-- DataNode.DeltaUpdateVolumes -/
 def deltaUpdateVolumes (c : Core) (s : Nat) (news dels : List VInfo) : Core :=
-  let c := dels.foldl (fun c v => delVol c s v.key.disk v.id v.remote) c
+  let c := dels.foldl (fun c v => delReg c s v) c
   news.foldl (fun c v => (addOrUpdate c s v).1) c
 
 /-- DataNode.GetVolumesById -/
